@@ -19,7 +19,7 @@ func init() {
 		Technique: "reference-model monitor (exact rational longitudes/altitudes, closed-form inverse Mercator with truncation tolerance) + round-trip and shared-face relations between calls",
 		Rule: "per case: a valid ID (h,v uniform in 0..35 with emphasis on 0,1,35; x,y uniform plus first/last row and column; f of both signs plus -2^v and 2^v-1), both notations and both options. " +
 			"Oracle: 8 corners in the order NW,NE,SE,SW bottom then top with lon = 360x/2^h-180 (4 ulp), lat = atan(sinh(pi(1-2y/2^h))) cut toward zero at 1e-10 deg (tolerance 1.2e-10), alt = f*2^(25-v) exact; " +
-			"centre = midpoint; centre -> ID at the same zooms returns the ID exactly; east(x)==west(x+1) (+-180 identified at the wrap), south(y)==north(y+1), top(f)==bottom(f+1) compared bitwise on the returned floats. " +
+			"centre = midpoint; centre -> ID at the same zooms returns the ID exactly; two random interior points (25 % margin) map back to the ID; east(x)==west(x+1) (+-180 identified at the wrap), south(y)==north(y+1), top(f)==bottom(f+1) compared bitwise on the returned floats. " +
 			"Non-trivial = h+v > 0; distinct by ID.",
 		Assume: []string{"latitude tolerance 1.2e-10 deg = documented truncation + float error of the inverse Mercator", "centre of a voxel is >= 4.5e-10 deg inside it even at h=35 near the latitude limit, so the round trip needs no band"},
 		N:      tierN(120_000, 5_000_000),
@@ -172,6 +172,21 @@ func runC02(c *core.Case) {
 	if err != nil || len(back) != 1 || back[0] != s {
 		c.Fail("centre-roundtrip", nil, "centre of %s maps back to %v (err %v)", s, back, err)
 		return
+	}
+	// tiling: points strictly inside the box (25 % margin, far above the 1e-10 deg latitude truncation) map to this ID
+	for k := 0; k < 2; k++ {
+		u, w, t := r.Uniform(0.25, 0.75), r.Uniform(0.25, 0.75), r.Uniform(0.25, 0.75)
+		ip, e := object.NewPoint(bx.w+u*(bx.e-bx.w), bx.s+w*(bx.n-bx.s), bx.b+t*(bx.t-bx.b))
+		if e != nil {
+			c.Fail("interior-point", nil, "an interior point of %s is refused by NewPoint: %v", s, e)
+			return
+		}
+		in, e := shape.GetExtendedSpatialIdsOnPoints([]*object.Point{ip}, id.H, id.V)
+		c.Call()
+		if e != nil || len(in) != 1 || in[0] != s {
+			c.Fail("interior-point", nil, "point (%.17g, %.17g, %.17g) lies inside %s (box lon %v..%v lat %v..%v alt %v..%v) but maps to %v (err %v)", ip.Lon(), ip.Lat(), ip.Alt(), s, bx.w, bx.e, bx.s, bx.n, bx.b, bx.t, in, e)
+			return
+		}
 	}
 	// spatial notation (h == v IDs): same geometry
 	if id.H == id.V {
